@@ -113,9 +113,9 @@ fn server_cut(_s: &mut Server, _rt: &RoutingTable, _srt: &RoutingTable, _from: S
     cut();
     None
 }
-static mut SERVER_CALLS: usize = 0;
+static mut SERVER_CALLS: crate::verif_env::Ghost<usize> = crate::verif_env::ghost(4, 0);
 fn server_probe(_s: &mut Server, rt: &RoutingTable, _srt: &RoutingTable, _from: SocketAddrV4, _r: RequestSpecific) -> Option<MessageType> {
-    unsafe { SERVER_CALLS += 1 };
+    unsafe { SERVER_CALLS.v += 1 };
     Some(MessageType::Response(ResponseSpecific::Ping(PingResponseArguments { responder_id: *rt.id() })))
 }
 
@@ -153,7 +153,7 @@ fn c18_o1_client_mode_silent() {
     let ro: bool = kani::any();
     let version: Option<[u8; 4]> = kani::any();
     let (reply, repopulate) = core.handle_request(from, ro, version, any_request(kind, Id::from(T5)));
-    let calls = unsafe { SERVER_CALLS };
+    let calls = unsafe { SERVER_CALLS.v };
     if !mode {
         assert!(reply.is_none(), "C18.O1 client mode never replies");
         assert!(calls == 0, "C18.O1 client mode never stores or serves");
@@ -313,7 +313,7 @@ fn c14_o3_maintenance_timers() {
     let dt: u64 = kani::any();
     kani::assume(t0 < (1 << 30) && dt < (1 << 30));
     clock::set(t0);
-    let mut core = new_core(false, vec![]);
+    let mut core = new_core(false, Vec::with_capacity(1));
     clock::set(t0 + dt);
     assert!(core.should_ping_table() == (dt > 300), "C14.O3 ping round every 5 minutes");
     assert!(core.should_refresh_table() == (dt > 900), "C14.O3 refresh every 15 minutes");
